@@ -202,6 +202,7 @@ Ref(t, t0, m, arr) ==
     [] t.op = "cold" -> LET sc == t.scripts[IF m < Len(t.scripts) THEN m ELSE Len(t.scripts)] IN [i \in 1..Len(sc) |-> TEv(t0, sc[i].k, sc[i].v)]
     [] t.op = "from_iter" -> DoneAt([i \in 1..Len(t.items) |-> TEv(t0, "n", t.items[i])], t0)
     [] t.op \in {"just", "start"} -> <<TEv(t0, "n", t.a), TEv(t0, "c", 0)>>
+    [] t.op = "from_result" -> IF t.b = 0 THEN <<TEv(t0, "n", t.a), TEv(t0, "c", 0)>> ELSE <<TEv(t0, "e", t.a)>>
     [] t.op = "empty" -> <<TEv(t0, "c", 0)>>
     [] t.op = "never" -> <<>>
     [] t.op = "error" -> <<TEv(t0, "e", t.a)>>
